@@ -52,7 +52,8 @@ HLine(n) == hoff + (CHOOSE k \in DOMAIN HOrder : HOrder[k] = n)
 
 Line(d, k, n, u) == [d |-> d, k |-> k, n |-> n, u |-> u]
 Header(l) == l.k \in {"def", "class"}          \* opens a scope
-Opens(l) == l.k \in {"def", "class", "try"}     \* must be followed by a deeper line
+Opens(l) == l.k \in {"def", "class", "try", "if", "els"}     \* must be followed by a deeper line
+Block(l) == l.k \in {"try", "if", "els"}       \* opens a block that is not a scope
 
 AllLinesAt(d) ==
   {Line(d, "bind", n, "") : n \in Names}
@@ -66,6 +67,7 @@ AllLinesAt(d) ==
   \cup {Line(d, "imp", n, "") : n \in Names}                    \* from h import n
   \cup {Line(d, "kw", n, u) : n \in Names, u \in Names}          \* n(u=1)
   \cup {Line(d, "try", "", ""), Line(d, "fin", "", "")}          \* try:   /   finally: pass
+  \cup {Line(d, "if", "", ""), Line(d, "els", "", "")}           \* if 1:  /   else:
 LinesAt(d) == {l \in AllLinesAt(d) : l.k \in Kinds}
 
 Max(S) == CHOOSE x \in S : \A y \in S : y <= x
@@ -78,7 +80,7 @@ RECURSIVE Encl(_, _)
 Encl(ls, i) ==
   IF ls[i].d = 0 THEN 0
   ELSE LET j == Max({k \in 1..(i - 1) : ls[k].d < ls[i].d})
-       IN IF ls[j].k = "try" THEN Encl(ls, j) ELSE j
+       IN IF Block(ls[j]) THEN Encl(ls, j) ELSE j
 ScopeKind(ls, s) == IF s = 0 THEN "module" ELSE ls[s].k
 Parent(ls, s) == Encl(ls, s)
 LinesOf(ls, s) == {i \in 1..Len(ls) : Encl(ls, i) = s}
@@ -105,6 +107,9 @@ CanAppend(ls, l) ==
   \* a try: block is closed by  finally: pass  as soon as the indentation comes back to it
   /\ LET t == OpenTry(ls)
      IN IF t # 0 /\ l.d <= ls[t].d THEN l = Line(ls[t].d, "fin", "", "") ELSE l.k # "fin"
+  \* else: only directly after the body of an if 1: of the same depth
+  /\ l.k = "els" => /\ ls # <<>> /\ ls[Len(ls)].d > l.d
+                    /\ LET j == Max({k \in 1..Len(ls) : ls[k].d <= l.d}) IN ls[j].k = "if" /\ ls[j].d = l.d
   \* n(u=1) only where some  def n(u)  has been written above
   /\ l.k = "kw" => \E j \in 1..Len(ls) : ls[j].k = "def" /\ ls[j].n = l.n /\ ls[j].u = l.u
   /\ l.k = "ret" => LET ls2 == Append(ls, l) IN ScopeKind(ls2, Encl(ls2, Len(ls2))) = "def"
